@@ -282,7 +282,7 @@ prop('C11', 'Output depends only on source, options and interpreter version', 'p
      ['C11/'], replay='props.replay_rename:replay_determinism',
      trusted=['purity corollary: a function that reads only its arguments and interpreter constants, writes only what it allocated and never lets set order reach '
               'its result is history-, schedule- and hash-seed independent', 'CPython-internal caches are semantically transparent', 'call graph by name'],
-     explanation='Frame analysis of all 401 functions of the package on every run: no global statement, no shared mutable default that is mutated/returned/'
+     explanation='Frame analysis (syntactic obligations decided by evaluation over the AST of each function, back end "eval", not SMT) of all 401 functions of the package on every run: no global statement, no shared mutable default that is mutated/returned/'
                  'passed on, no module- or class-level container mutated, no ambient read (environment, clock, random, id, hash outside __hash__), every loop '
                  'or comprehension over a set-valued expression has an order-insensitive body or consumer; minify() copies the caller\'s preserve lists before '
                  'extending them (symbolic execution, contracts/pipeline.py). No schedule is executed: thread independence follows from the write frame.')
